@@ -20,6 +20,9 @@ pub enum Behaviour {
     NoReply { rst: bool },
     /// Read the complete request, then write `segments` and close.
     Reply { segments: Vec<Vec<u8>>, rst: bool },
+    /// Read the complete request, write `segments` (possibly none), then go silent while keeping
+    /// the connection open until the client gives up (real time: the client's own timeout).
+    Stall { segments: Vec<Vec<u8>> },
 }
 
 #[derive(Clone, Debug, Default)]
@@ -37,6 +40,7 @@ pub struct Observed {
     pub connections: usize,
     pub requests: Vec<Request>,
     pub bytes_written: usize,
+    pub stalled_for_ms: u64,
 }
 
 pub struct Endpoint {
@@ -110,7 +114,7 @@ fn set_linger0(s: &TcpStream) {
     }
 }
 
-fn handle(mut s: TcpStream, b: &Behaviour, obs: &Arc<Mutex<Observed>>) {
+fn handle(mut s: TcpStream, b: &Behaviour, obs: &Arc<Mutex<Observed>>, stop: &Arc<AtomicBool>) {
     let _ = s.set_nodelay(true);
     let _ = s.set_read_timeout(Some(Duration::from_secs(20)));
     let mut raw = vec![];
@@ -143,8 +147,33 @@ fn handle(mut s: TcpStream, b: &Behaviour, obs: &Arc<Mutex<Observed>>) {
     obs.lock().unwrap().requests.push(req);
     let rst = match b {
         Behaviour::CloseEarly { rst, .. } | Behaviour::NoReply { rst } | Behaviour::Reply { rst, .. } => *rst,
-        Behaviour::Refuse => false,
+        Behaviour::Refuse | Behaviour::Stall { .. } => false,
     };
+    if let (Behaviour::Stall { segments }, true) = (b, complete) {
+        let mut written = 0;
+        for seg in segments {
+            if s.write_all(seg).is_err() {
+                break;
+            }
+            let _ = s.flush();
+            written += seg.len();
+        }
+        obs.lock().unwrap().bytes_written += written;
+        // silence: wait for the client to close (or for the harness to stop the endpoint)
+        let _ = s.set_read_timeout(Some(Duration::from_millis(100)));
+        let mut sink = [0u8; 1024];
+        let started = std::time::Instant::now();
+        while !stop.load(Ordering::Relaxed) && started.elapsed() < Duration::from_secs(100) {
+            match s.read(&mut sink) {
+                Ok(0) => break,
+                Ok(_) => {}
+                Err(e) if e.kind() == std::io::ErrorKind::WouldBlock || e.kind() == std::io::ErrorKind::TimedOut => {}
+                Err(_) => break,
+            }
+        }
+        obs.lock().unwrap().stalled_for_ms = started.elapsed().as_millis() as u64;
+        return;
+    }
     if let (Behaviour::Reply { segments, .. }, true) = (b, complete) {
         let mut written = 0;
         for (i, seg) in segments.iter().enumerate() {
@@ -210,7 +239,7 @@ impl Endpoint {
                     Ok((s, _)) => {
                         let _ = s.set_nonblocking(false);
                         obs2.lock().unwrap().connections += 1;
-                        handle(s, &b, &obs2);
+                        handle(s, &b, &obs2, &stop2);
                     }
                     Err(_) => std::thread::sleep(Duration::from_micros(300)),
                 }
